@@ -77,6 +77,11 @@ def build_harness():
     with Lock("cargo"):
         rc, out = sh(["cargo", "build", "--release", "--offline"], cwd=HARNESS_DIR, timeout=1800)
     if rc != 0:
+        # development aid only (never set by the registered commands): another work package may have a
+        # half-edited ops_*.rs; keep using the last good binary
+        if os.environ.get("VERIF_ALLOW_STALE") == "1" and os.path.exists(HARNESS_BIN):
+            print("warning: harness build failed, using the existing binary", file=sys.stderr)
+            return
         raise BrokenTie("harness build (cargo) failed against /repo working tree", out[-4000:])
 
 
@@ -377,6 +382,9 @@ class Report:
     def finish(self):
         os.makedirs(EVIDENCE, exist_ok=True)
         os.makedirs(REPLAYS, exist_ok=True)
+        for fn in os.listdir(REPLAYS):
+            if fn.startswith("%s_%s_" % (self.prop, self.tier)):
+                os.remove(os.path.join(REPLAYS, fn))
         lines = []
         for key, e in self.known_hits.items():
             lines.append("KNOWN-FINDING: property=%s %s" % (self.prop, e["description"]))
